@@ -166,3 +166,21 @@ Example C08_stream_example :
     [BNum 3; BKind 1 2; BBytes [1; 2]; BUnit; BErr 1] /\
   fst (run [OList; OUint 8; OListEnd] (new_stream (unhex "c28501"%string) 0)) = [BNum 2; BErr 3; BErr 14].
 Proof. vm_compute. split; reflexivity. Qed.
+
+(* ---------- header sizes: intsize / headsize of encode.go ---------- *)
+(* for every uint64 n > 0 the number of length bytes the size bookkeeping assumes (intsize: listEnd,
+   headsize -> Stream.Raw, ListSize) is the number putint writes (the minimal big-endian length of n), between
+   1 and 8, with 256^(k-1) <= n < 256^k; and headsize is the length of the header actually written *)
+Theorem C08_intsize_minimal : forall n, 0 < n < 2 ^ 64 ->
+  intsize n = len (beb n) /\ 1 <= intsize n <= 8 /\ 256 ^ (intsize n - 1) <= n < 256 ^ intsize n.
+Proof. exact intsize_minimal. Qed.
+Print Assumptions C08_intsize_minimal.
+
+Theorem C08_headsize_is_header_length : forall base n, n < 2 ^ 64 -> len (head base n) = headsize n.
+Proof. exact headsize_is_header_length. Qed.
+Print Assumptions C08_headsize_is_header_length.
+
+Example C08_intsize_example :
+  intsize 0xFFFFF = 3 /\ intsize 0x100000 = 3 /\ intsize 0xFFFFFF = 3 /\ intsize 0x1000000 = 4 /\
+  headsize 55 = 1 /\ headsize 56 = 2 /\ headsize (3 * 2 ^ 20) = 4.
+Proof. vm_compute. repeat split; reflexivity. Qed.
